@@ -7,6 +7,7 @@ import (
 	"go/types"
 	"strings"
 
+	"golang.org/x/tools/go/cfg"
 	"golang.org/x/tools/go/packages"
 
 	"lvcheck/internal/core"
@@ -40,13 +41,40 @@ func isCiphertextPtr(t types.Type) bool {
 var metaFields = map[string]bool{"MetaData": true, "Scale": true, "IsNTT": true, "IsMontgomery": true, "IsBatched": true, "LogDimensions": true,
 	"PlaintextMetaData": true, "CiphertextMetaData": true, "IsBitReversed": true}
 
+// metaCfg parameterises the analysis: METAOUT looks at any metadata field and accepts a comparison of the output with
+// an operand anywhere on the path; SCALEOUT looks at the scale only and accepts the comparison only on the edge where
+// the two are the same object.
+type metaCfg struct {
+	rule    string
+	fields  map[string]bool
+	deleg   *map[*types.Func]map[int]bool
+	cmpEdge bool
+	stat    string
+}
+
+var scaleFields = map[string]bool{"MetaData": true, "Scale": true, "PlaintextMetaData": true}
+var scaleDeleg = map[*types.Func]map[int]bool{}
+var metaCur = &metaCfg{rule: "METAOUT", fields: metaFields, deleg: &metaDeleg, stat: "metaout_ops"}
+
 // metaDeleg: (function, parameter index) pairs known NOT to define the metadata of the element they receive there.
 // Computed as a greatest fixpoint over every function of the scope that has an output-named element parameter, so
 // that handing the output to a helper only counts when the helper (transitively) does the job.
 var metaDeleg = map[*types.Func]map[int]bool{}
 
 func scanMetaOut(c *core.Ctx) []ob {
-	metaDeleg = map[*types.Func]map[int]bool{}
+	metaCur = &metaCfg{rule: "METAOUT", fields: metaFields, deleg: &metaDeleg, stat: "metaout_ops"}
+	return scanMetaCfg(c)
+}
+
+func scanScaleOut(c *core.Ctx) []ob {
+	metaCur = &metaCfg{rule: "SCALEOUT", fields: scaleFields, deleg: &scaleDeleg, cmpEdge: true, stat: "scaleout_ops"}
+	defer func() { metaCur = &metaCfg{rule: "METAOUT", fields: metaFields, deleg: &metaDeleg, stat: "metaout_ops"} }()
+	return scanMetaCfg(c)
+}
+
+func scanMetaCfg(c *core.Ctx) []ob {
+	*metaCur.deleg = map[*types.Func]map[int]bool{}
+	metaDeleg := *metaCur.deleg
 	for iter := 0; iter < 12; iter++ {
 		changed := false
 		scanMetaOutMode(c, func(f *types.Func, idx int, ok bool) {
@@ -71,6 +99,9 @@ func scanMetaOut(c *core.Ctx) []ob {
 func scanMetaOutMode(c *core.Ctx, collect func(f *types.Func, idx int, ok bool)) []ob {
 	var out []ob
 	n := 0
+	mc := metaCur
+	metaFields := mc.fields
+	metaDeleg := *mc.deleg
 	all := collect != nil
 	c.FuncDecls(func(pk *packages.Package, file *ast.File, fd *ast.FuncDecl) {
 		rel := core.ShortPkg(pk.PkgPath)
@@ -109,7 +140,7 @@ func scanMetaOutMode(c *core.Ctx, collect func(f *types.Func, idx int, ok bool))
 		}
 		n++
 		fkey := core.FuncKey(pk, fd)
-		key := "METAOUT:" + fkey
+		key := mc.rule + ":" + fkey
 		_, errRes := lastResultIsError(sig)
 		pm := parentMapCached(fd)
 		isOut := func(e ast.Expr) bool {
@@ -196,13 +227,31 @@ func scanMetaOutMode(c *core.Ctx, collect func(f *types.Func, idx int, ok bool))
 						}
 					}
 				case *ast.BinaryExpr:
-					if (v.Op == token.EQL || v.Op == token.NEQ) && (isOut(v.X) || isOut(v.Y)) && !isNilIdent(v.X) && !isNilIdent(v.Y) {
+					if !mc.cmpEdge && (v.Op == token.EQL || v.Op == token.NEQ) && (isOut(v.X) || isOut(v.Y)) && !isNilIdent(v.X) && !isNilIdent(v.Y) {
 						hit = true
 					}
 				}
 				return true
 			})
 			return hit
+		}
+		// sameEdge: the successor index of a block ending in `out == x` / `out != x` on which the two are the same object
+		sameEdge := func(b *cfg.Block) int {
+			if !mc.cmpEdge || len(b.Succs) != 2 || len(b.Nodes) == 0 {
+				return -1
+			}
+			cond, ok := b.Nodes[len(b.Nodes)-1].(ast.Expr)
+			if !ok {
+				return -1
+			}
+			be, ok := unparen(cond).(*ast.BinaryExpr)
+			if !ok || (be.Op != token.EQL && be.Op != token.NEQ) || !(isOut(be.X) || isOut(be.Y)) || isNilIdent(be.X) || isNilIdent(be.Y) {
+				return -1
+			}
+			if be.Op == token.EQL {
+				return 0
+			}
+			return 1
 		}
 		g := buildCFG(info, fd.Body)
 		// a path that returns before doing anything (only conditions evaluated) is a documented no-op / guard
@@ -215,7 +264,8 @@ func scanMetaOutMode(c *core.Ctx, collect func(f *types.Func, idx int, ok bool))
 		}
 		inW := forward(g, false, nil, func(nd ast.Node, s bool) bool { return s || worked(nd) },
 			func(a, b bool) bool { return a || b }, func(a, b bool) bool { return a == b })
-		in := forward(g, false, nil, func(nd ast.Node, s bool) bool { return s || event(nd) },
+		in := forwardEdge(g, false, func(nd ast.Node, s bool) bool { return s || event(nd) },
+			func(b *cfg.Block, i int, s bool) bool { return s || sameEdge(b) == i },
 			func(a, b bool) bool { return a && b }, func(a, b bool) bool { return a == b })
 		var bad []token.Pos
 		for _, b := range g.Blocks {
@@ -232,7 +282,7 @@ func scanMetaOutMode(c *core.Ctx, collect func(f *types.Func, idx int, ok bool))
 					if !w {
 						continue
 					}
-					if !returnIsFailing(info, pm, r, errRes) && !s {
+					if !returnIsFailing(info, pm, r, errRes) && !swallowedFailure(info, pm, r) && !s {
 						// returning the result of a module call that received opOut is covered by event(); a bare delegation too
 						bad = append(bad, r.Pos())
 					}
@@ -246,7 +296,7 @@ func scanMetaOutMode(c *core.Ctx, collect func(f *types.Func, idx int, ok bool))
 		// OUTMETAREAD: a metadata field of the output read at a point where, on some path, nothing has defined it yet.
 		// (accumulating operations read their output by design)
 		nm := fd.Name.Name
-		if !(strings.Contains(nm, "ThenAdd") || strings.Contains(nm, "ThenSub") || strings.Contains(nm, "InPlace")) && metaReadExempt[fkey] == "" {
+		if mc.rule == "METAOUT" && !(strings.Contains(nm, "ThenAdd") || strings.Contains(nm, "ThenSub") || strings.Contains(nm, "InPlace")) && metaReadExempt[fkey] == "" {
 			readsOutMeta := func(nd ast.Node) (token.Pos, string) {
 				var pos token.Pos
 				var what string
@@ -323,6 +373,18 @@ func scanMetaOutMode(c *core.Ctx, collect func(f *types.Func, idx int, ok bool))
 			collect(funcOrigin(obj), outIdx, len(bad) == 0)
 			return
 		}
+		if mc.rule == "SCALEOUT" {
+			// accumulating and in-place operations keep the scale their output has by design
+			if strings.Contains(nm, "ThenAdd") || strings.Contains(nm, "ThenSub") || strings.Contains(nm, "InPlace") || metaReadExempt[fkey] != "" {
+				return
+			}
+			if len(bad) == 0 {
+				out = append(out, okOb("SCALEOUT", key, c.Rel(fd.Pos()), "the scale of the output is written (or the output handed to a callee that writes it, or is the operand itself) on every success path", true))
+			} else {
+				out = append(out, violOb("SCALEOUT", key, c.Rel(bad[0]), fmt.Sprintf("%s reaches the success return at %s on a path where the scale of its output %s has been neither written, nor copied with the metadata, nor left to a callee that writes it, and where the output is not known to be the operand itself: a receiver other than the operand keeps the scale it happened to carry and decodes to another value", fkey, c.Rel(bad[0]), outP.Name())))
+			}
+			return
+		}
 		if len(bad) == 0 {
 			out = append(out, okOb("METAOUT", key, c.Rel(fd.Pos()), "output metadata written (or delegated) on every success path", true))
 		} else {
@@ -330,7 +392,7 @@ func scanMetaOutMode(c *core.Ctx, collect func(f *types.Func, idx int, ok bool))
 			out = append(out, o)
 		}
 	})
-	c.Stats["metaout_ops"] = n
+	c.Stats[mc.stat] = n
 	return out
 }
 
@@ -377,4 +439,39 @@ func init() {
 		}})
 }
 
+func init() {
+	core.Register(&core.Rule{Name: "SCALEOUT", Props: []string{"C04", "C05", "C06", "C11", "C12", "C13", "C16", "C20"},
+		Doc: "every exported evaluator method with an output ciphertext (accumulating *ThenAdd/*InPlace operations excepted) writes the scale of that output, copies the metadata into it, or hands it to a callee that does (greatest fixpoint over the helpers: InitOutputUnaryOp/BinaryOp do not), on every path to a success return on which the output is not known to be the operand itself (edge-sensitive must-analysis over go/cfg)",
+		Run: func(c *core.Ctx) []ob {
+			out := scanScaleOut(c)
+			for i := range out {
+				out[i].Props = metaProps(out[i].Key)
+			}
+			for _, o := range control(c, "SCALEOUT", scanScaleOut, "(fixEvaluator).AddConst") {
+				out = append(out, withProps(o, "C04", "C05", "C06", "C11", "C12", "C13", "C20"))
+			}
+			for _, o := range core.Floor("SCALEOUT", nil, "operations with an output ciphertext", c.Stats["scaleout_ops"], 30) {
+				out = append(out, withProps(o, "C04", "C05", "C06", "C11", "C12", "C13", "C20"))
+			}
+			return out
+		}})
+}
+
 var _ = packages.NeedName
+
+// swallowedFailure: a bare return, in a function without error result, directly under `if err != nil`: the helper gives
+// up on a failure of a callee (the failure itself is the business of ERRDROP), it is not a success path.
+func swallowedFailure(info *types.Info, pm map[ast.Node]ast.Node, ret *ast.ReturnStmt) bool {
+	if len(ret.Results) != 0 {
+		return false
+	}
+	blk, ok := pm[ast.Node(ret)].(*ast.BlockStmt)
+	if !ok {
+		return false
+	}
+	is, ok := pm[ast.Node(blk)].(*ast.IfStmt)
+	if !ok || is.Body != blk {
+		return false
+	}
+	return len(errVarsTestedNotNil(info, is.Cond)) > 0
+}
